@@ -94,6 +94,11 @@ void walk(X const &x, F const &f)
   }
   else if constexpr (is_fcppt_record<U>::value) { walk(x.impl(), f); }
   else if constexpr (is_std_tuple<U>::value) { std::apply([&f](auto const &...e) { (walk(e, f), ...); }, x); }
+  else if constexpr (requires { x.children(); x.parent(); x.value(); }) // fcppt::container::tree::object
+  {
+    walk(x.value(), f);
+    for (auto const &child : x.children()) walk(child, f);
+  }
   else if constexpr (iterable<U>) { for (auto const &e : x) walk(e, f); }
   else { (void)x; (void)f; }
 }
